@@ -20,6 +20,8 @@ TEXT = {
               'rewrite rules extracted from the if-chains and decided as Kleene-algebra identities by a derivative-based equivalence procedure in the analyser'),
     'C06': _t('Decides: state names of a translation come from one private generator or a provider whose universe covers the set joined; GNFA start/accept are fresh; the building blocks pass the epsilon their keys use and translate operand epsilons; operands untouched. Not decided: language equality for all expressions and elimination orders.',
               'provenance + universe-coverage rule for introduced names, epsilon def-use agreement, alias/effect summaries'),
+    'C07': _t('Decides: the CYK loop-nest schedule for every n <= 12 (each cell written after the cells it reads, reads exactly the splits), diagonal seeding and pair order; CNF typestate of the grammar at every use and CYK call; empty-word guard; CNF recogniser atoms. Not decided: that a cell holds exactly the deriving variables (a semantic fixed point) -- the thinnest claim of the twenty.',
+              'index arithmetic of the loop nest extracted and evaluated in the analyser for n <= 12 + forward must-dataflow for the CNF typestate'),
     'C08': _t('Decides: six pure/in-place twins are paired correctly, input grammar untouched, nullable/unit closures saturated. Not decided: language preservation per phase.',
               'twin-pairing rule (dominance) + effect summaries + fixpoint discipline'),
     'C09': _t('Decides: bounded closure worklist discipline: limit read at call time, counter once per pop, >= limit pops, each configuration enqueued once. Not decided: soundness/completeness of the whole search.',
